@@ -137,3 +137,26 @@ pub fn legal_gen_list<S: Src, const SIDE: u8, const G: u8, const KP: u32, const 
     }
     core::mem::forget(list);
 }
+
+/// the prefiltered decision for en-passant captures when the mover's king stands on the same rank as the two
+/// pawns (the configuration in which removing both pawns can uncover a rook or queen; defect 1 lived here).
+/// A sub-case of `prefiltered_legal_exact::<SIDE, KG_EP>`, cheap enough for the quick tier.
+pub fn prefiltered_ep_king_on_rank<S: Src, const SIDE: u8>(s: &mut S) {
+    crate::stubs::draw_hash_pool(s);
+    let b = match any_board(s, SIDE) {
+        Some(b) => b,
+        None => return,
+    };
+    let p = pos_of(b.raw());
+    let m = any_m_g::<S, SIDE, KG_EP>(s);
+    let k = find_king(&p.cells, p.side);
+    vassume!((k >> 3) == (m.src >> 3));
+    vassume!(semilegal_ref(&p, m));
+    let mv = mv_of(m);
+    let got = verif::is_legal_prefiltered(&b, mv);
+    let want = legal_ref(&p, m);
+    vnote!("fen={} move={:?} prefiltered={} rules={}", b.as_fen(), mv, got, want);
+    vassert!("prefiltered legality of an en-passant capture with the king on the pawns' rank = legal by the rules", got == want);
+    vcover!("legal", want);
+    vcover!("illegal: the capture uncovers an attack along the rank", !want && !in_check_ref(&p));
+}
